@@ -142,7 +142,7 @@ AddArgs(s, ts, from) ==
 MapPut(m, k, v) == LET i == FirstIdx(m, LAMBDA p : p[1] = k) IN
                    IF i = 0 THEN Append(m, <<k, v>>) ELSE [m EXCEPT ![i] = <<k, v>>]
 
-\* the callback's behaviour in the harness: it fails (returns an error) iff its argument equals failOn (when failOn # <<>>)
+\* the callback's behaviour in the harness: it fails (returns an error) iff its converted argument equals failOn (when failOn # <<>>)
 CallFails(od, txt) == od.failOn # <<>> /\ od.failOn[1] = txt
 
 \* src: "cli" | "def".  Result: new state, with perr set when the call fails.
@@ -166,7 +166,7 @@ ApplySet(s, o, hasVal, txt, src) ==
   ELSE IF ~conv.ok THEN fail(Err("foreign", E))
   ELSE IF od.kind = "func1" THEN
        LET s2 == [s1 EXCEPT !.events = Append(@, [k |-> "call", o |-> o, has |-> TRUE, arg |-> conv.v])] IN
-       IF CallFails(od, t) THEN [s2 EXCEPT !.perr = Err("foreign", E)] ELSE s2
+       IF CallFails(od, conv.v) THEN [s2 EXCEPT !.perr = Err("foreign", E)] ELSE s2
   ELSE IF od.kind \in {"slice", "counter"} THEN [s1 EXCEPT !.val[o] = Append(@, conv.v)]
   ELSE IF od.kind = "map" THEN [s1 EXCEPT !.val[o] = MapPut(@, MapKey(t), conv.v)]
   ELSE [s1 EXCEPT !.val[o] = <<conv.v>>]
